@@ -107,6 +107,9 @@ impl World {
     pub fn more(&self, have: u64, max: u64) -> bool {
         have < max && self.chance(2, 3)
     }
+    pub fn more_p(&self, have: u64, max: u64, num: u64, den: u64) -> bool {
+        have < max && self.chance(num, den)
+    }
 
     pub fn fired(&self, kind: &'static str) {
         self.fired.borrow_mut().add(kind, 1);
